@@ -32,16 +32,11 @@ type propRec struct {
 }
 
 type roundLog struct {
-	props               []propRec
-	pv, pc              []voteRec
-	anyPV, anyPC, anyM  uint32
-	ownPV, ownPC        uint64
-	hasOwnPV, hasOwnPC  bool
-	prevoteTimeoutSched bool
-	// line 49's condition (first proposal of the round + quorum of precommits
-	// for its id) became true while the validator was still at a lower height,
-	// i.e. purely from buffered messages
-	commitEnabledWhileBuffered bool
+	props              []propRec
+	pv, pc             []voteRec
+	anyPV, anyPC, anyM uint32
+	ownPV, ownPC       uint64
+	hasOwnPV, hasOwnPC bool
 }
 
 type heightLog struct {
@@ -119,11 +114,6 @@ func (s *sim) record(nd *node, m msg) {
 		rl.pc = addVote(rl.pc, m.val, m.from)
 		rl.anyPC |= 1 << uint(m.from)
 		rl.anyM |= 1 << uint(m.from)
-	}
-	if m.h > nd.h && m.kind != kPrevote && len(rl.props) > 0 && !rl.commitEnabledWhileBuffered {
-		if v := rl.props[0].val; validVal(v) && s.c.isQuorum(m.h, s.c.maskPower(m.h, voteMask(rl.pc, v))) {
-			rl.commitEnabledWhileBuffered = true
-		}
 	}
 }
 
